@@ -597,6 +597,7 @@ def run(ctx):
     run_bad(ctx, lines, pending)
     for _ in range(ctx.n(2500, 40000)):
         run_field(ctx, gen_field(ctx.rng, ctx.tier), lines, pending)
+    from . import c11_groupcat; c11_groupcat.run_extra(ctx)   # WCSGroupCatalog bookkeeping (model TW.GC, op `groupcat`)
     if ctx.search_only:
         return
     outs = ctx.driver(lines)
@@ -613,6 +614,8 @@ def replay(ctx, payload):
     lines, pending = [], []
     if case.get('op') == 'match2ref':
         probe_match2ref(ctx, case)
+    elif case.get('op') == 'groupcat':
+        from . import c11_groupcat; c11_groupcat.replay_case(ctx, case)
     else:
         run_field(ctx, case, lines, pending)
     outs = ctx.driver(lines)
